@@ -24,6 +24,8 @@ pub struct ModuleSpec {
   pub skip: &'static [&'static str],
   /// Coq modules this one may call into
   pub imports: &'static [&'static str],
+  /// hand-written theory files (models of std) whose vocabulary this module uses
+  pub theories: &'static [&'static str],
 }
 
 pub const MODULES: &[ModuleSpec] = &[
@@ -32,16 +34,18 @@ pub const MODULES: &[ModuleSpec] = &[
     file: "src/internal.rs",
     skip: &["something_went_wrong"],
     imports: &[],
+    theories: &[],
   },
   ModuleSpec {
     name: "Root",
     file: "src/lib.rs",
     // hand-modelled in Model/ZeroGuard.v and Model/StdSlice.v
-    skip: &["write_zeroes", "fill_zeroes", "zeroed", "pod_align_to", "pod_align_to_mut"],
+    skip: &["write_zeroes", "fill_zeroes", "zeroed"],
     imports: &["Internal"],
+    theories: &["Model.StdSlice"],
   },
-  ModuleSpec { name: "Checked", file: "src/checked.rs", skip: &[], imports: &["Internal", "Root"] },
-  ModuleSpec { name: "Must", file: "src/must.rs", skip: &[], imports: &[] },
+  ModuleSpec { name: "Checked", file: "src/checked.rs", skip: &[], imports: &["Internal", "Root"], theories: &[] },
+  ModuleSpec { name: "Must", file: "src/must.rs", skip: &[], imports: &[], theories: &[] },
   ModuleSpec {
     name: "Alloc",
     file: "src/allocation.rs",
@@ -52,9 +56,10 @@ pub const MODULES: &[ModuleSpec] = &[
       "pod_collect_to_vec", "box_bytes_of", "from_box_bytes", "try_from_box_bytes",
     ],
     imports: &["Internal", "Root"],
+    theories: &[],
   },
   // the default methods of `unsafe trait TransparentWrapper<Inner: ?Sized>`
-  ModuleSpec { name: "Transparent", file: "src/transparent.rs", skip: &[], imports: &[] },
+  ModuleSpec { name: "Transparent", file: "src/transparent.rs", skip: &[], imports: &[], theories: &[] },
 ];
 
 #[derive(Clone, Debug)]
@@ -114,6 +119,38 @@ pub fn json_str(s: &str) -> String {
   }
   o.push('"');
   o
+}
+
+/// Items of the crate that the model does not translate but gives a fixed meaning to (vocabulary):
+/// their source text is pinned, so that a change to one of them makes every function that uses it
+/// untranslatable (fail closed) instead of silently keeping the old meaning.
+/// (module, item name as used in `callees`, normalised token text without doc comments)
+pub const VOCAB: &[(&str, &str, &str)] = &[
+  ("Root", "transmute!", include_str!("vocab_transmute.txt")),
+  ("Internal", "something_went_wrong", include_str!("vocab_sww.txt")),
+];
+
+fn strip_docs(attrs: &mut Vec<syn::Attribute>) {
+  attrs.retain(|a| !a.path().is_ident("doc"));
+}
+
+/// The normalised text of the vocabulary item `name` as it is in `file` (all definitions, in order).
+pub fn vocab_text(file: &syn::File, name: &str) -> String {
+  let mut out = vec![];
+  for it in &file.items {
+    match it {
+      syn::Item::Macro(m) if name.ends_with('!') && m.ident.as_ref().map(|i| format!("{}!", i) == name).unwrap_or(false) => {
+        out.push(m.mac.tokens.to_string());
+      }
+      syn::Item::Fn(f) if f.sig.ident == name => {
+        let mut f = f.clone();
+        strip_docs(&mut f.attrs);
+        out.push(quote::quote!(#f).to_string());
+      }
+      _ => {}
+    }
+  }
+  out.join("\n")
 }
 
 /// Collect the free functions of a file, including those wrapped in `maybe_const_fn! { .. }`.
@@ -183,6 +220,18 @@ fn sig_of(module: &str, f: &syn::ItemFn) -> Result<FnSig, String> {
 
 fn main() {
   let args: Vec<String> = std::env::args().collect();
+  if args.len() == 3 && args[1] == "--vocab" {
+    // print the current text of the vocabulary items (maintenance: refresh src/vocab_*.txt)
+    let repo = Path::new(&args[2]);
+    for (vm, vname, _) in VOCAB {
+      let ms = MODULES.iter().find(|m| m.name == *vm).unwrap();
+      let src = std::fs::read_to_string(repo.join(ms.file)).unwrap_or_default();
+      if let Ok(file) = syn::parse_file(&src) {
+        println!("=== {} {}\n{}", vm, vname, vocab_text(&file, vname));
+      }
+    }
+    return;
+  }
   if args.len() < 3 {
     eprintln!("usage: bm2coq <repo-root> <out-dir> [<config>=<expanded.rs> ...]");
     std::process::exit(2);
@@ -289,6 +338,22 @@ fn main() {
       module_error = Some(perr.clone());
     }
 
+    if let Some(file) = file {
+      for (vm, vname, vtext) in VOCAB {
+        if *vm == ms.name {
+          let now = vocab_text(file, vname);
+          let ok = now.trim() == vtext.trim();
+          // drop the plain "skipped" entries of the same name: this one carries the verdict
+          items.retain(|it| !(it.name == *vname && it.status.starts_with("skipped")));
+          items.push(ItemOut {
+            name: vname.to_string(), kind: "vocabulary".into(), line_start: 0, line_end: 0, cfg: vec![],
+            status: if ok { "skipped: vocabulary (definition unchanged)".into() }
+                    else { "failed: the definition of this vocabulary item changed; its fixed meaning in the model no longer applies".into() },
+            code: String::new(), callees: vec![],
+          });
+        }
+      }
+    }
     results.push((*i, items, module_error));
   }
 
@@ -376,6 +441,9 @@ fn emit_module(ms: &ModuleSpec, items: &[ItemOut]) -> String {
   let _ = writeln!(s, "(* GENERATED by bm2coq from {} — do not edit.  Regenerated on every check. *)", ms.file);
   s.push_str("From Coq Require Import NArith List Bool String.\n");
   s.push_str("From BM Require Import Base.Outcome Base.Prims Base.Own.\n");
+  for th in ms.theories {
+    let _ = writeln!(s, "From BM Require Import {}.", th);
+  }
   for im in ms.imports {
     let _ = writeln!(s, "From BM.Gen Require {}.", im);
   }
